@@ -122,7 +122,7 @@ func events(stmts []ast.Stmt, out *[]string) {
 		default:
 			// pure logging is not part of the handler's behaviour towards the file system or the client
 			if es, ok := st.(*ast.ExprStmt); ok {
-				if c, ok := es.X.(*ast.CallExpr); ok && strings.HasPrefix(callee(c), "log.") {
+				if c, ok := es.X.(*ast.CallExpr); ok && strings.HasPrefix(callee(c), "log.") && len(callsIn(st)) == 1 {
 					continue
 				}
 			}
@@ -179,6 +179,16 @@ func isGuard(st ast.Stmt, v string) bool {
 	return true
 }
 
+// a statement that only logs: `log.X(args…)` with no further call inside its arguments
+func isPureLog(st ast.Stmt) bool {
+	es, ok := st.(*ast.ExprStmt)
+	if !ok {
+		return false
+	}
+	c, ok := es.X.(*ast.CallExpr)
+	return ok && strings.HasPrefix(callee(c), "log.") && len(callsIn(st)) == 1
+}
+
 func analyse(method, pattern string, fn *ast.FuncLit) handler {
 	h := handler{Method: method, Pattern: pattern, JoinArgs: []string{}, Events: []string{}}
 	events(fn.Body.List, &h.Events)
@@ -216,7 +226,7 @@ func analyse(method, pattern string, fn *ast.FuncLit) handler {
 		if i == defIdx {
 			continue
 		}
-		if len(callsIn(stmts[i])) > 0 {
+		if len(callsIn(stmts[i])) > 0 && !isPureLog(stmts[i]) {
 			ok = false
 		}
 	}
